@@ -573,11 +573,23 @@ def mov(info, a, b):
                          (ExprInt_from(b, 0), b.get_size(), a.get_size())])
     return [ExprAff(a, b)]
 
+def aff_pair(a, va, b, vb):
+    # a = va and b = vb; two parts of one register (al and ah) are written
+    # by a single assignment: two assignments to the register would lose one
+    if isinstance(a, ExprSlice) and isinstance(b, ExprSlice) \
+            and a.arg == b.arg and a != b:
+        if a.start < b.start:
+            lo, vlo, hi, vhi = a, va, b, vb
+        else:
+            lo, vlo, hi, vhi = b, vb, a, va
+        return [ExprAff(ExprSlice(a.arg, lo.start, hi.stop),
+                        ExprCompose([(vlo, 0, lo.stop - lo.start),
+                                     (vhi, hi.start - lo.start,
+                                      hi.stop - lo.start)]))]
+    return [ExprAff(a, va), ExprAff(b, vb)]
+
 def xchg(info, a, b):
-    e = []
-    e.append(ExprAff(a, b))
-    e.append(ExprAff(b, a))
-    return e
+    return aff_pair(a, b, b, a)
 
 def movzx(info, a, b):
     return [ExprAff(a, ExprCompose([(ExprInt32(0), b.get_size(), a.get_size()),
@@ -613,8 +625,7 @@ def xadd(info, a, b):
     e+=update_flag_arith(c)
     e+=update_flag_af(c)
     e+=update_flag_add(b, a, c)
-    e.append(ExprAff(b, a))
-    e.append(ExprAff(a, c))
+    e += aff_pair(b, a, a, c)
     return e
 
 def adc(info, a, b):
